@@ -51,68 +51,38 @@ TrSetRounds ==
      ELSE /\ NoPanic
           /\ LET st == [jit[Ev.g] EXCEPT !.rounds = Ev.r] IN ObsOk(st) /\ jit' = [jit EXCEPT ![Ev.g] = st]
 
-(* a collection from readings rd[off+1..], in either reading of the stuck test *)
-Coll(st, rd, off) ==
-  LET w == Collect(st.pool, st.mpi, st.rounds, rd, off, "W")
-  IN IF w.dis THEN {w, Collect(st.pool, st.mpi, st.rounds, rd, off, "Z")} ELSE {w}
+(* The plans of module JitterApi (what TLC model-checks for C16), executed on concrete state:   *)
+(* a step that collects runs one collection on the readings from the current offset; the part  *)
+(* it hands out is taken from the pool.  acc = [ok, off, dis, st, bytes].                       *)
+JA == INSTANCE JitterApi WITH Inst <- {}, MaxTok <- 0, FillLens <- {}, CloneCopiesFlag <- FALSE,
+                              alive <- {}, tok <- <<>>, pend <- <<>>, handed <- {}, dup <- FALSE, ntok <- 0
+RunPlan(st0, plan, rd, mode) ==
+  FoldLeft(LAMBDA acc, s :
+     IF ~acc.ok THEN acc
+     ELSE LET c == IF s.collect THEN Collect(acc.st.pool, acc.st.mpi, acc.st.rounds, rd, acc.off, mode)
+                   ELSE [ok |-> TRUE, pool |-> acc.st.pool, mpi |-> acc.st.mpi, used |-> 0, dis |-> FALSE]
+              word == CASE s.part = "whole" -> c.pool [] s.part = "lo" -> Lo32(c.pool) [] s.part = "hi" -> Hi32(c.pool)
+          IN [ok |-> c.ok, off |-> acc.off + c.used, dis |-> acc.dis \/ c.dis,
+              st |-> [acc.st EXCEPT !.pool = c.pool, !.mpi = c.mpi, !.half = s.pend],
+              bytes |-> acc.bytes \o SubSeq(ToBytesLE(word), 1, s.take)],
+     [ok |-> TRUE, off |-> 0, dis |-> FALSE, st |-> st0, bytes |-> <<>>], plan)
+(* deterministic in the mod-2^32 reading of the stuck test; if the two readings disagree       *)
+(* anywhere in the call, the whole call is also tried in the integer reading                    *)
+Outcomes(st0, plan, rd) ==
+  LET w == RunPlan(st0, plan, rd, "W") IN IF w.dis THEN {w, RunPlan(st0, plan, rd, "Z")} ELSE {w}
 
-TrNextU64 ==
-  /\ IsEvent("next_u64") /\ NoPanic /\ Ev.g \in DOMAIN jit
-  /\ \E c \in Coll(jit[Ev.g], Reads, 0) :
-       LET st == [jit[Ev.g] EXCEPT !.pool = c.pool, !.mpi = c.mpi, !.half = FALSE] IN
-       /\ Expect("collection consumes the readings", <<TRUE, Len(Reads)>>, <<c.ok, c.used>>)
-       /\ Expect("ret", c.pool, Ev.ret)
-       /\ ObsOk(st)
-       /\ jit' = [jit EXCEPT ![Ev.g] = st]
+Output(plan, retOf(_)) ==
+  /\ NoPanic /\ Ev.g \in DOMAIN jit
+  /\ \E r \in Outcomes(jit[Ev.g], plan, Reads) :
+       /\ Expect("collections consume exactly the readings", <<TRUE, Len(Reads)>>, <<r.ok, r.off>>)
+       /\ Expect("ret", retOf(r.bytes), Ev.ret)
+       /\ ObsOk(r.st)
+       /\ jit' = [jit EXCEPT ![Ev.g] = r.st]
 
-TrNextU32 ==
-  /\ IsEvent("next_u32") /\ NoPanic /\ Ev.g \in DOMAIN jit
-  /\ IF jit[Ev.g].half
-     THEN LET st == [jit[Ev.g] EXCEPT !.half = FALSE] IN       \* the high half; no timer reading
-          /\ Expect("reads", <<>>, Reads)
-          /\ Expect("ret", Hi32(st.pool), Ev.ret)
-          /\ ObsOk(st)
-          /\ jit' = [jit EXCEPT ![Ev.g] = st]
-     ELSE \E c \in Coll(jit[Ev.g], Reads, 0) :
-          LET st == [jit[Ev.g] EXCEPT !.pool = c.pool, !.mpi = c.mpi, !.half = TRUE] IN
-          /\ Expect("collection consumes the readings", <<TRUE, Len(Reads)>>, <<c.ok, c.used>>)
-          /\ Expect("ret", Lo32(c.pool), Ev.ret)
-          /\ ObsOk(st)
-          /\ jit' = [jit EXCEPT ![Ev.g] = st]
-
-(* fill_bytes = fill_bytes_via_next: n \div 8 next_u64, then one next_u64 (tail 5..7) or one   *)
-(* next_u32 (tail 1..4).  Deterministic in mode W; if the two stuck readings disagree anywhere *)
-(* the whole call is also tried in mode Z.                                                     *)
-FillIn(st0, n, rd, mode) ==
-  LET nq == n \div 8
-      tail == n % 8
-      u64step(acc, i) ==
-        IF ~acc.ok THEN acc
-        ELSE LET c == Collect(acc.st.pool, acc.st.mpi, acc.st.rounds, rd, acc.off, mode)
-             IN [ok |-> c.ok, off |-> acc.off + c.used, dis |-> acc.dis \/ c.dis,
-                 st |-> [acc.st EXCEPT !.pool = c.pool, !.mpi = c.mpi, !.half = FALSE],
-                 bytes |-> acc.bytes \o ToBytesLE(c.pool)]
-      a1 == FoldLeft(u64step, [ok |-> TRUE, off |-> 0, dis |-> FALSE, st |-> st0, bytes |-> <<>>], Idx(nq))
-      a2 == IF tail > 4 THEN LET r == u64step(a1, 0) IN [r EXCEPT !.bytes = a1.bytes \o SubSeq(ToBytesLE(r.st.pool), 1, tail)]
-            ELSE IF tail > 0 THEN
-                 IF ~a1.ok THEN a1
-                 ELSE IF a1.st.half
-                      THEN [a1 EXCEPT !.st.half = FALSE, !.bytes = a1.bytes \o SubSeq(ToBytesLE(Hi32(a1.st.pool)), 1, tail)]
-                      ELSE LET c == Collect(a1.st.pool, a1.st.mpi, a1.st.rounds, rd, a1.off, mode)
-                           IN [ok |-> c.ok, off |-> a1.off + c.used, dis |-> a1.dis \/ c.dis,
-                               st |-> [a1.st EXCEPT !.pool = c.pool, !.mpi = c.mpi, !.half = TRUE],
-                               bytes |-> a1.bytes \o SubSeq(ToBytesLE(Lo32(c.pool)), 1, tail)]
-            ELSE a1
-  IN a2
-TrFill ==
-  /\ IsEvent("fill_bytes") /\ NoPanic /\ Ev.g \in DOMAIN jit
-  /\ LET w == FillIn(jit[Ev.g], Ev.n, Reads, "W")
-         cands == IF w.dis THEN {w, FillIn(jit[Ev.g], Ev.n, Reads, "Z")} ELSE {w}
-     IN \E r \in cands :
-          /\ Expect("collections consume the readings", <<TRUE, Len(Reads)>>, <<r.ok, r.off>>)
-          /\ Expect("ret", r.bytes, Ev.ret)
-          /\ ObsOk(r.st)
-          /\ jit' = [jit EXCEPT ![Ev.g] = r.st]
+TrNextU64 == IsEvent("next_u64") /\ Ev.g \in DOMAIN jit /\ Output(JA!PlanU64, FromBytesLE)
+TrNextU32 == IsEvent("next_u32") /\ Ev.g \in DOMAIN jit /\ Output(JA!PlanU32(jit[Ev.g].half), FromBytesLE)
+TrFill    == IsEvent("fill_bytes") /\ Ev.g \in DOMAIN jit
+             /\ \E plan \in JA!PlanFillSet(jit[Ev.g].half, Ev.n) : Output(plan, LAMBDA b : b)
 
 TrTimerStats ==
   /\ IsEvent("timer_stats") /\ NoPanic /\ Ev.g \in DOMAIN jit
@@ -151,7 +121,7 @@ TrClone ==
   /\ IsEvent("clone") /\ NoPanic /\ Ev.g \in DOMAIN jit
   /\ Expect("ok", TRUE, Ev.ok)
   /\ Expect("reads", <<>>, Reads)
-  /\ LET st == [jit[Ev.g] EXCEPT !.half = FALSE] IN
+  /\ LET st == [jit[Ev.g] EXCEPT !.half = JA!ClonePend] IN
        /\ Has(Ev, "obs_to") =>
             /\ Expect("clone pool", st.pool, Ev.obs_to.pool) /\ Expect("clone rounds", st.rounds, Ev.obs_to.rounds)
             /\ Expect("clone mem_prev_index", st.mpi, Ev.obs_to.mpi) /\ Expect("clone half", FALSE, Ev.obs_to.half)
